@@ -158,6 +158,15 @@ class Rewriter:
         k = self.closure_key(op)
         b = self.bodies.get(k) if k else None
         if b is None:
+            # a function item: its own body's return type, or the one spelled in the item's type
+            if op["k"] == "const" and "fnref" in op:
+                r = op["fnref"]
+                fb = self.bodies.get(r.get("res") or r["fn"])
+                if fb is not None and not fb.get("generics"):
+                    return fb["locals"][0]["ty"]
+                ty = op.get("ty", "")
+                if ty.startswith("fn(") and ") -> " in ty and ty.endswith("}") and not r.get("rargs") and not r.get("targs"):
+                    return ty[ty.index(") -> ") + 5:ty.rindex(" {")]
             return "?"
         return b["locals"][0]["ty"]
 
